@@ -15,6 +15,18 @@ if sys.version_info > (3,):
     long = int
 
 
+def _nativeorder(value):
+    """
+    netCDF4 stores the bytes of an attribute array as they are; values
+    from big-endian readers (bpch, CAMx) must be made native first
+    """
+    if isinstance(value, (np.ndarray, np.generic)):
+        dt = value.dtype
+        if dt.kind in 'iuf' and not dt.isnative:
+            return value.astype(dt.newbyteorder('='))
+    return value
+
+
 class Pseudo2NetCDF:
     """
     Pseudo2NetCDF is a base class for conversion.  Properties and methods can
@@ -85,6 +97,7 @@ class Pseudo2NetCDF:
             else:
                 value = getattr(pfile, k)
             if not isinstance(value, MethodType):
+                value = _nativeorder(value)
                 try:
                     # setattr would treat names that netCDF4 reserves for
                     # python attributes (scale, mask, ...) as private
@@ -109,6 +122,7 @@ class Pseudo2NetCDF:
             if isinstance(nvar, NetCDFVariable) and a == '_FillValue':
                 continue
             if not isinstance(value, MethodType):
+                value = _nativeorder(value)
                 try:
                     nvar.setncattr(a, value)
                     # setattr(nvar,a,value)
